@@ -1143,7 +1143,12 @@ impl<'a> VisitMut for Rw<'a> {
                     }
                     "unwrap_or_default" => {
                         self.fire("R-UNIT.unwrap_or_default");
-                        replacement = Some(parse_quote!(#recv.unwrap_or(Q::zero())));
+                        // on a quantity: 0.0; on another type the group names the (glue) function that stands for
+                        // `<T as Default>::default()`
+                        match self.opts.extra.get("unwrap_or_default_fn").and_then(|f| syn::parse_str::<syn::Path>(f).ok()) {
+                            Some(f) => replacement = Some(parse_quote!(#recv.unwrap_or(#f()))),
+                            None => replacement = Some(parse_quote!(#recv.unwrap_or(Q::zero()))),
+                        }
                     }
                     "get_unchecked" => {
                         self.fire("R-UNSAFE.get_unchecked");
